@@ -232,6 +232,9 @@ def correspondence(ctx):
                 "resolver's lazy graph for the same expansions; non-trivial = more than one worker and more than 3 nodes")
     try:
         n_suites, per_suite, n_orders = (90, 2, 3) if thorough else (14, 1, 2)
+        for case in gl.corpus_cases("C09"):
+            ctx.count("corpus.replayed")
+            gl.run_attributed(ctx, case, lambda c, k: run_cases(c, [k], 2))
         budget = 1400 if thorough else 150
         cases = c06.gen_cases(rng, n_suites, per_suite, "large" if thorough else "small", lazy_share=0.0, max_workers=3)
         for c in cases:
